@@ -663,6 +663,21 @@ func genC01Calls(r *kernel.RNG, tier string, i int) interface{} {
 		formals := "[" + strings.Join(fs, " ") + "]"
 		sc.Texts = append(sc.Texts, fmt.Sprintf(r.Pick([]string{"(fn %s 1)", "(defn ff9 %s 1)", "(defmac mm9 %s 1)", "(func fz9 %s [] 1)", "(func fy9 [a:int64] %s 1)", "((fn %s 1) 1 2)", "(method [p: (* Ts)] mt9 %s [] 1)", "(let %s 1)", "(letseq %s 1)", "(for %s 1)", "(mdef %s)"}), formals))
 	}
+	// every name with pairs of extreme integers (shift counts, exponents, divisors, sizes, indexes)
+	if i%5 == 2 {
+		edges := []string{"0", "1", "-1", "2", "63", "64", "-64", "9223372036854775807", "-9223372036854775808"}
+		for q := 0; q < 3; q++ {
+			n := names[(i/5*3+q)%len(names)]
+			if c01SkipNames[n] || n == "makeArray" || n == "array" {
+				continue // (sizes of 2^63 cells are a matter of memory, not of this property)
+			}
+			for _, a := range edges {
+				for _, b := range edges {
+					sc.Texts = append(sc.Texts, "("+n+" "+a+" "+b+")")
+				}
+			}
+		}
+	}
 	// a variable of every type the interpreter knows by name, then used as a value
 	if i%3 == 1 {
 		tn := names[(i*7)%len(names)]
@@ -736,7 +751,9 @@ func genC01Index(r *kernel.RNG, tier string, i int) interface{} {
 }
 
 var infixTokens = []string{"a", "b", "x1", "1", "2", "-3", "4.5", "1e3", `"s"`, "'c'", "+", "-", "*", "/", "**", "=", ":=", "==", "!=", "<", "<=", ">", ">=", "&&", "||", "!", "+=", "-=", "++", "--",
-	"(", ")", "[", "]", "{", "}", ",", ";", ":", ".", "if", "else", "for", "range", "break", "continue", "return", "(f 1)", "a[0]", "a[1:2]", "a.b", "h.k", "lbl:", "nil", "true", "not", "and", "or", "mod", "->", "%a", "^(b)", "~c", "\n"}
+	"(", ")", "[", "]", "{", "}", ",", ";", ":", ".", "if", "else", "for", "range", "break", "continue", "return", "(f 1)", "a[0]", "a[1:2]", "a.b", "h.k", "lbl:", "nil", "true", "not", "and", "or", "mod", "->", "%a", "^(b)", "~c", "\n",
+	// statement heads and tails, so that soups contain unfinished statements and not only unfinished expressions
+	"for a =", "for a = {}", "for a, b := range", "for a := range h {", "for {", "for ; ; {", "if a ==", "if a {", "else {", "= }", "{}", "return a,", "a, b =", "a = ", "for a = range", "a :=", "for a ="}
 
 // genC01InfixSoup: token soups inside an infix block - the Pratt parser's look-ahead and binding-power loops are hand-written
 func genC01InfixSoup(r *kernel.RNG, tier string, i int) interface{} {
